@@ -8,7 +8,11 @@ Inductive case :=
 | KDisc (eps : Z) (recs : list triple) (support : option seg) (rdur rstep : Z)
         (labs : option (list name)) (duration : option Z) (obs : option odisc)
 | KOneHot (eps : Z) (recs : list triple) (support : sup) (wdur wstep : Z) (labs : option (list name))
-          (obs : option odisc) (decoded : list (Z * list seg)).
+          (obs : option odisc) (decoded : list (Z * list seg))
+(* decimal (non-dyadic) resolutions, outside the exact tier of the model: the driver evaluates the clauses of the property
+   literally with exact rational arithmetic (frame count, window start, centre rule with its one-step margin) and
+   reports whether they hold *)
+| KDriver (nframes : Z) (ok : bool).
 
 (* the centre rule: value forced to 1 / 0 when the frame centre is at least one step
    inside / outside the label's support *)
@@ -88,4 +92,5 @@ Definition check (c : case) : nat :=
           else 1%nat
       | _, _ => 1%nat
       end
+  | KDriver _ ok => if ok then 0%nat else 1%nat
   end.
